@@ -1481,8 +1481,11 @@ def _check_recv(plan, B, r, dump, cands_all, consumed, add, st, psm, probes, ath
     if psm:
         # partially shared buffers: bytes of shared regions carry no information, so the status decides which message
         # this is and the content check is only about private bytes
+        # (a status that reports truncation can only belong to a message larger than the receive, any other status only
+        # to a message of exactly the reported size: two messages of one (source, tag) are told apart that way when SMPI
+        # matches them out of order - async-small-thresh > 0, finding mailbox_split_order of C28 - instead of blaming the copy)
         statusfirst = [m for m in cands if m['comm'] == r['comm'] and m['src'] == ssrc and m['tag'] == stt['tag'] and
-                       (m['bytes'] == stt['bytes'] or m['bytes'] > B.ti(rit['rt']).size * rit['rc'])]
+                       ((m['bytes'] > cap0) if said_trunc else (m['bytes'] == stt['bytes']))]
     if statusfirst and not any(m['id'] == min(statusfirst, key=lambda x: x['seq'])['id'] for m in matches):
         matches = []
         cands = statusfirst
